@@ -269,6 +269,9 @@ class Resolver:
                     return built
                 # an empty container that is read later has been filled by mutation in between: keep it symbolic
                 return sym("mut", ast.Constant(value=name), ast.Constant(value=d))
+            if self._fresh_list(value) and self._stored_into_after(name, d):
+                # a pre-sized list whose entries are overwritten afterwards is not its initial value any more
+                return sym("mut", ast.Constant(value=name), ast.Constant(value=d))
             return self._res(value, d, depth + 1, stack, {})
         if isinstance(target, (ast.Tuple, ast.List)):
             names = [t.id if isinstance(t, ast.Name) else None for t in target.elts]
@@ -338,6 +341,26 @@ class Resolver:
         it = self._res(cfg.nodes[h].ast.iter, h, depth + 1, stack, {})
         body_terms = ([self._res(k_e, sn.id, depth + 1, stack, {})] if k_e is not None else []) + [self._res(v_e, sn.id, depth + 1, stack, {})]
         return sym("comp", ast.Constant(value="DictComp" if is_dict else "ListComp"), *body_terms, sym("gen", it))
+
+    @staticmethod
+    def _fresh_list(value: ast.AST) -> bool:
+        if isinstance(value, ast.List) and value.elts:
+            return True
+        if isinstance(value, ast.BinOp) and isinstance(value.op, ast.Mult) and (isinstance(value.left, ast.List) or isinstance(value.right, ast.List)):
+            return True
+        return False
+
+    def _stored_into_after(self, name: str, d: int) -> bool:
+        """some statement reachable from the definition stores into the list bound to `name` (x[i] = v, x[a:b] = vs)"""
+        for n in self.cfg.nodes:
+            if n.kind != "stmt" or n.id == d or not isinstance(n.ast, (ast.Assign, ast.AugAssign)):
+                continue
+            tgts = n.ast.targets if isinstance(n.ast, ast.Assign) else [n.ast.target]
+            for t in tgts:
+                if isinstance(t, ast.Subscript) and isinstance(t.value, ast.Name) and t.value.id == name and self.cfg.reaches(d, n.id):
+                    if d in self.rd[n.id].get(name, ()):
+                        return True
+        return False
 
     @staticmethod
     def _empty_container(value: ast.AST) -> bool:
